@@ -1,6 +1,14 @@
 (** Extraction of the executable models.  ExtrOcamlBasic only; no Extract Constant:
     the scalar operations are passed in as an [ops] record by the driver. *)
 From Coq Require Import List Arith Bool.
+From SV Require Import Base.Ops.
+From SV Require Import Base.Arr.
+From SV Require Import Model.Vec3.
+From SV Require Import Model.Exchange.
+From SV Require Import Model.Scene.
+From SV Require Import Model.Brdf.
+From SV Require Import Model.Frame.
+From SV Require Import Model.Tiling.
 Require Extraction.
 From Coq Require Import ExtrOcamlBasic.
 Extraction Language OCaml.
